@@ -60,6 +60,71 @@ KINDS = ["const", "log", "stmt", "if", "ifstmt"]
 VALUELESS = ["setv", "dosetv", "while"]      # statement-producing operands without a value: they evaluate to None (falsy)
 
 
+def fn_operand_oracle(chk, rng, n):
+    """real code only (fn is outside the Coq model): and/or with operands that are anonymous functions compiled to a def
+    (statement body) whose default-argument / annotation expressions are effectful.  Evaluating such an operand runs
+    those expressions -- exactly when every earlier operand was truthy (and) / falsy (or), and after them."""
+    hy = vlib.use_repo_in_process()
+    vals = [("0", 0), ("7", 7), ("None", None), ("True", True), ("\"\"", ""), ("\"a\"", "a")]
+    for i in range(n):
+        op = rng.choice(["and", "or"])
+        arity = rng.randrange(2, 6)
+        fnpos = rng.randrange(1, arity) if rng.random() < 0.85 else 0
+        ops, spec = [], []
+        for j in range(arity):
+            t, v = rng.choice(vals)
+            if i < 24 and j < fnpos:
+                # the first cases are deterministic: earlier operands short-circuit / do not, alternately
+                t, v = (("0", 0) if (op == "and") == (i % 2 == 0) else ("7", 7))
+            r = rng.random()
+            if j == fnpos or r < 0.15:
+                kind = rng.choice(["default", "default", "annotation", "return-annotation", "two-defaults"])
+                if kind == "default":
+                    ops.append("(fn [[x (t %d %s)]] (setv junk 1) x)" % (j, t))
+                elif kind == "annotation":
+                    ops.append("(fn [#^ (t %d %s) [x 5]] (setv junk 1) x)" % (j, t))
+                elif kind == "return-annotation":
+                    ops.append("(fn #^ (t %d %s) [[x 5]] (setv junk 1) x)" % (j, t))
+                else:
+                    ops.append("(fn [[x (t %d %s)] [y (t %d 1)]] (setv junk 1) x)" % (j, t, j + 100))
+                spec.append(("fn", [j, j + 100] if kind == "two-defaults" else [j], None))
+            elif r < 0.35:
+                ops.append("(do (setv junk %d) (t %d %s))" % (j, j, t))
+                spec.append(("val", [j], v))
+            else:
+                ops.append("(t %d %s)" % (j, t))
+                spec.append(("val", [j], v))
+        src = "(%s %s)" % (op, " ".join(ops))
+        want_log, want = [], (True if op == "and" else None)
+        for kind, pts, v in spec:
+            want_log += pts
+            want = "FN" if kind == "fn" else v
+            truth = True if kind == "fn" else bool(v)
+            if truth != (op == "and"):
+                break
+        for ctx in ("%s", "[%s]", "(setv r %s) r"):
+            full = ctx % src
+            log = []
+
+            def t(k, v):
+                log.append(k)
+                return v
+            try:
+                got = hy.eval(hy.read_many(full), {"t": t, "int": int})
+                if isinstance(got, list):
+                    got = got[0]
+                got = "FN" if callable(got) else got
+                res = (repr(got), log)
+            except Exception as e:
+                res = ("raises %s: %s" % (type(e).__name__, str(e)[:80]), log)
+            chk.count("fn-operand:%s:arity %d" % (op, arity))
+            chk.case("F:" + full, nontrivial=True, sample={"program": full, "result": repr(res)} if (i % 150 == 7 and ctx == "%s") else None)
+            if res != (repr(want), want_log):
+                chk.fail("fn-operand-effects", {"program": full}, "value %s, effect points %r" % res,
+                         "value %r, effect points %r" % (want, want_log),
+                         "hy.eval(hy.read_many(src), {'t': t}) with t(k, v) logging k and returning v")
+
+
 def run(chk):
     chk.trusted = cc.TRUSTED_COMPILER
     chk.assumptions = ["operands of generated forms never assign a statement-lifted value with setv/setx, so Result.rename "
@@ -105,6 +170,37 @@ def run(chk):
                                 ops.append(operand(g, rng, rng.choice(KINDS + VALUELESS), rng.choice(TRUTHY + FALSY)))
                         progs.append(cc.dress(rng, ("bool", isand, ops), fault_p=0.15))
                         chk.count("value-less operand reached at position %d of %d" % (pos, n))
+    # an enclosing and/or that already owns its temporary (a statement-producing operand at index >= 1 was reached), whose
+    # LATER operand holds two sibling and/or forms that each need the if-chain and whose values are both live: they are the
+    # two arguments of a call (log2 k a b) (behaviour only, see compiler_common.to_coq).  Each form needs a temporary of its own.
+    def inner_form():
+        isand = rng.random() < 0.5
+        vals = TRUTHY + FALSY
+        ops = [operand(g, rng, rng.choice(["const", "log", "if"]), rng.choice(vals))]
+        ops.append(operand(g, rng, rng.choice(["stmt", "ifstmt", "stmt"]), rng.choice(vals)))
+        if rng.random() < 0.3:
+            ops.append(operand(g, rng, rng.choice(KINDS), rng.choice(vals)))
+        return ("bool", isand, ops)
+    for _ in range(600 if thorough else 90):
+        g.k = 0
+        g.loopvar = 0
+        isand = rng.random() < 0.5
+        reach = TRUTHY if isand else FALSY
+        ops = [operand(g, rng, rng.choice(KINDS), rng.choice(reach)) for _i in range(rng.randrange(1, 3))]
+        ops.append(operand(g, rng, rng.choice(["stmt", "ifstmt"]), rng.choice(reach)))
+        if rng.random() < 0.4:
+            ops.append(operand(g, rng, rng.choice(["const", "log"]), rng.choice(reach)))
+        a, b = inner_form(), inner_form()
+        if g.k % 2 == 1 and rng.random() < 0.7:
+            g.k += 1                      # mostly an odd effect point: the call returns its FIRST argument
+        call = g.mk_log2(a, b)
+        r = rng.random()
+        ops.append(call if r < 0.5 else ("do", [("setv", rng.randrange(cc.NVARS), ("const", rng.choice(TRUTHY + FALSY))), call])
+                   if r < 0.8 else ("log", g.fresh_k(), call))
+        if rng.random() < 0.3:
+            ops.append(operand(g, rng, rng.choice(KINDS), rng.choice(TRUTHY + FALSY)))
+        progs.append(cc.dress(rng, ("bool", isand, ops), fault_p=0.1))
+        chk.count("sibling and/or forms live at once inside a later operand")
     # larger arities and nested and/or, sampled
     for _ in range(2500 if thorough else 420):
         g.k = 0
@@ -130,3 +226,4 @@ def run(chk):
                 "in every non-first position of arities 2..4, plus sampled arities 2..8 with nested and/or, not, variables; a fault table makes some effect points raise; "
                 "non-trivial = distinct program of size >= 4" % max_exh)
     cc.differential(chk, progs)
+    fn_operand_oracle(chk, rng, 1500 if thorough else 200)
